@@ -31,7 +31,6 @@ pub const KF_GLOBAL_TUPLE: &str = "C01-wasm-global-tuple-in-stateful-fn";
 pub const KF_BLOCK_OPERAND: &str = "C01-wasm-block-operand";
 pub const KF_PROJ_COND: &str = "C01-wasm-proj-in-cond-and-arm";
 pub const KF_CAPTURE_DESTRUCTURED: &str = "C01-wasm-closure-captures-destructured";
-pub const KF_UPVALUE_BRANCH: &str = "C02-vm-upvalue-first-read-in-branch";
 
 pub fn pcfg(cx: &Cx) -> (PCfg, Vec<&'static str>) {
     let mut c = PCfg::default();
@@ -83,11 +82,6 @@ pub fn pcfg(cx: &Cx) -> (PCfg, Vec<&'static str>) {
     if cx.excluded(KF_CAPTURE_DESTRUCTURED) {
         c.capture_destructured = false;
         off.push(KF_CAPTURE_DESTRUCTURED);
-    }
-    if cx.excluded(KF_UPVALUE_BRANCH) {
-        c.capture_in_branch = false;
-        c.if_in_lambda = false;
-        off.push(KF_UPVALUE_BRANCH);
     }
     if cx.excluded(KF_UNRESOLVED_SELF) {
         c.unannotated_self = false;
